@@ -834,6 +834,7 @@ class ServiceBrowser(_ServiceBrowserBase, threading.Thread):
         # not block the event loop
         self.queue: queue.SimpleQueue = queue.SimpleQueue()
         self._cancelled_from_callback = False
+        self._cancel_requested = False
         self.daemon = True
         self.start()
         zc.loop.call_soon_threadsafe(self._async_start)
@@ -845,6 +846,12 @@ class ServiceBrowser(_ServiceBrowserBase, threading.Thread):
     def cancel(self) -> None:
         """Cancel the browser."""
         assert self.zc.loop is not None
+        if self._cancel_requested:
+            # Cancelled already (by the application, or by close() a moment ago)
+            if threading.current_thread() is not self:
+                self.join()
+            return
+        self._cancel_requested = True
         self.queue.put(None)
         self.zc.loop.call_soon_threadsafe(self._async_cancel)
         if threading.current_thread() is self:
